@@ -15,7 +15,6 @@ import (
 	"fmt"
 	"os"
 	"reflect"
-	"sort"
 	"strings"
 	"sync"
 	"time"
@@ -26,27 +25,6 @@ import (
 )
 
 // ---------------------------------------------------------------- cases
-type TimeSpec struct {
-	Sec  int64 `json:"sec"`
-	Nsec int64 `json:"nsec"`
-	Off  int   `json:"off"` // zone offset in minutes; 0 = UTC
-}
-
-func (t TimeSpec) Time() time.Time {
-	loc := time.UTC
-	if t.Off != 0 {
-		loc = time.FixedZone("", t.Off*60)
-	}
-	return time.Unix(t.Sec, t.Nsec).In(loc)
-}
-
-// encodable: time.Time.MarshalJSON accepts years 0..9999 only
-func (t TimeSpec) Encodable() bool { y := t.Time().Year(); return y >= 0 && y <= 9999 }
-
-type TableEntry struct {
-	F string `json:"f"` // format name
-	V string `json:"v"` // hex
-}
 type TOp struct {
 	G   int    `json:"g"`
 	Set bool   `json:"set"`
@@ -54,75 +32,32 @@ type TOp struct {
 	V   string `json:"v,omitempty"`
 }
 type Case struct {
-	ID      int          `json:"id"`
-	Gen     string       `json:"gen"`
-	Kind    string       `json:"kind"` // proc | table
-	Node    string       `json:"node,omitempty"` // formatter | jff | filter
-	Pred    int          `json:"pred"`           // 0 absent 1 true 2 false 3 error
-	Type    string       `json:"type,omitempty"` // hex
-	Time    TimeSpec     `json:"time"`
-	Payload *jgen.Recipe `json:"payload,omitempty"`
-	NilTab  bool         `json:"nil_table,omitempty"`
-	Pre     []TableEntry `json:"pre,omitempty"`
-	Ops     []TOp        `json:"ops,omitempty"`
-}
-
-var fmtIDs = map[string]int{"json": 1, "cloudevents-json": 2, "cloudevents-text": 3, "text": 4, "other": 5}
-
-func fmtID(name string, extra map[string]int) int {
-	if id, ok := fmtIDs[name]; ok {
-		return id
-	}
-	if id, ok := extra[name]; ok {
-		return id
-	}
-	id := 6 + len(extra)
-	extra[name] = id
-	return id
-}
-
-type entry struct {
-	id int
-	v  []byte
-}
-
-func tableLit(m map[string][]byte, extra map[string]int) string {
-	var es []entry
-	names := make([]string, 0, len(m))
-	for k := range m {
-		names = append(names, k)
-	}
-	sort.Strings(names)
-	for _, k := range names {
-		es = append(es, entry{fmtID(k, extra), m[k]})
-	}
-	sort.SliceStable(es, func(i, j int) bool { return es[i].id < es[j].id })
-	parts := make([]string, len(es))
-	for i, e := range es {
-		parts[i] = fmt.Sprintf("(%d, %s)", e.id, jgen.Bytes(e.v))
-	}
-	return "[" + strings.Join(parts, "; ") + "]"
+	ID      int               `json:"id"`
+	Gen     string            `json:"gen"`
+	Kind    string            `json:"kind"`           // proc | table
+	Node    string            `json:"node,omitempty"` // formatter | jff | filter
+	Pred    int               `json:"pred"`           // 0 absent 1 true 2 false 3 error
+	Type    string            `json:"type,omitempty"` // hex
+	Time    jgen.TimeSpec     `json:"time"`
+	Payload *jgen.Recipe      `json:"payload,omitempty"`
+	NilTab  bool              `json:"nil_table,omitempty"`
+	Pre     []jgen.TableEntry `json:"pre,omitempty"`
+	Ops     []TOp             `json:"ops,omitempty"`
 }
 
 var errPred = errors.New("predicate failed")
 
 type Obs struct {
-	Err     bool   `json:"err"`
-	ErrText string `json:"err_text,omitempty"`
-	Out     int    `json:"out"`
+	Err     bool              `json:"err"`
+	ErrText string            `json:"err_text,omitempty"`
+	Out     int               `json:"out"`
 	Table   map[string]string `json:"table"`
-	Frame   bool   `json:"frame"`
-	Decode  int    `json:"decode"`
-	Panic   string `json:"panic,omitempty"`
+	Frame   bool              `json:"frame"`
+	Decode  int               `json:"decode"`
+	Panic   string            `json:"panic,omitempty"`
 }
 
-func unhex(s string) []byte {
-	b, err := hex.DecodeString(s)
-	if err != nil {
-		panic(err)
-	}
-	return b
-}
+func unhex(s string) []byte { return jgen.Unhex(s) }
 
 // runProc executes one Process call on the real node and returns the Coq literal of the case plus the observation.
 func runProc(c Case) (lit string, obs Obs, nontrivial bool) {
@@ -199,7 +134,7 @@ func runProc(c Case) (lit string, obs Obs, nontrivial bool) {
 		obs.Table[k] = hex.EncodeToString(v)
 	}
 	// Go's own decode of what is stored under json now
-	timeText := tm.Format(time.RFC3339Nano)
+	timeText := string(c.Time.Text())
 	if line, has := e.Formatted["json"]; has && ok && c.Time.Encodable() && c.Node != "filter" {
 		obs.Decode = 2
 		dec := json.NewDecoder(bytes.NewReader(line))
@@ -215,14 +150,14 @@ func runProc(c Case) (lit string, obs Obs, nontrivial bool) {
 		}
 	}
 	extra := map[string]int{}
-	preLit := tableLit(pre, extra)
+	preLit := jgen.TableLit(pre, extra)
 	plLit := "None"
 	if ok {
 		plLit = "(Some " + mv.Lit() + ")"
 	}
 	lit = fmt.Sprintf("CProc %d {| c_node := %s; c_type := %s; c_time := %s; c_payload := %s; c_pre := %s;\n   c_obs := {| o_err := %s; o_out := %d; o_table := %s; o_frame := %s; o_decode := %d |} |}",
 		c.ID, nodeLit, jgen.Bytes(ty), jgen.OptBytes([]byte(timeText), c.Time.Encodable()), plLit, preLit,
-		hc.B(obs.Err), obs.Out, tableLit(e.Formatted, extra), hc.B(obs.Frame), obs.Decode)
+		hc.B(obs.Err), obs.Out, jgen.TableLit(e.Formatted, extra), hc.B(obs.Frame), obs.Decode)
 	nontrivial = !ok || jgen.Depth(c.Payload) > 1 || string(jgen.Sanitize(ty)) != string(ty) || (mv != nil && mv.K == "str" && len(mv.S) > 0)
 	return
 }
@@ -283,7 +218,7 @@ func runTable(c Case) (lit string, panicked string) {
 		r := req{o, make(chan string, 1)}
 		chans[o.G] <- r
 		res := <-r.done
-		id := fmtID(o.F, extra)
+		id := jgen.FmtID(o.F, extra)
 		if o.Set {
 			parts[i] = fmt.Sprintf("(%d, TSet %d %s, %s)", o.G, id, jgen.Bytes(unhex(o.V)), res)
 		} else {
@@ -295,7 +230,7 @@ func runTable(c Case) (lit string, panicked string) {
 	}
 	wg.Wait()
 	// ids of the initial table must be assigned consistently with the operations: intern again in one order
-	lit = fmt.Sprintf("CTable %d %s [%s] %s", c.ID, tableLit(pre, extra), strings.Join(parts, "; "), tableLit(e.Formatted, extra))
+	lit = fmt.Sprintf("CTable %d %s [%s] %s", c.ID, jgen.TableLit(pre, extra), strings.Join(parts, "; "), jgen.TableLit(e.Formatted, extra))
 	return
 }
 
@@ -333,7 +268,7 @@ func (em *emitter) emit(c Case) {
 			em.panics = append(em.panics, fmt.Sprintf("case %d: %s", c.ID, obs.Panic))
 		}
 		em.cf.Add(lit)
-		em.stats["node:"+c.Node]++
+		em.stats["proc:"+c.Node]++
 		em.stats[fmt.Sprintf("pred:%d", c.Pred)]++
 		if obs.Err {
 			em.stats["outcome:error"]++
@@ -358,36 +293,6 @@ func (em *emitter) emit(c Case) {
 }
 
 // ---------------------------------------------------------------- generators
-var times = []TimeSpec{{0, 0, 0}, {100, 5, 0}, {1700000000, 123456789, 0}, {1700000000, 120000000, 330}, {1700000000, 999999999, -480},
-	{-62135596800, 0, 0} /* year 1 */, {253402300799, 999999999, 0} /* 9999-12-31T23:59:59.999999999Z */, {951782400, 500000000, 60}, {1, 1000, -1}, {-1, 0, 840}}
-var badTimes = []TimeSpec{{253402300800, 0, 0} /* year 10000 */, {-62198755200, 0, 0} /* year -1 */, {253402300799, 999999999, 60} /* rolls into 10000 */}
-
-func genTime(r *hc.Rand) TimeSpec {
-	switch x := r.Intn(20); {
-	case x == 0:
-		return badTimes[r.Intn(len(badTimes))]
-	case x < 10:
-		return times[r.Intn(len(times))]
-	}
-	return TimeSpec{Sec: int64(r.Intn(4000000000)) - 1000000000, Nsec: []int64{0, 1, 10, 999999999, 500000000, int64(r.Intn(1000000000))}[r.Intn(6)], Off: []int{0, 0, 60, -300, 345, 840, -720}[r.Intn(7)]}
-}
-
-func genPre(r *hc.Rand, g *jgen.Gen) (bool, []TableEntry) {
-	switch r.Intn(6) {
-	case 0:
-		return true, nil
-	case 1:
-		return false, nil
-	}
-	var es []TableEntry
-	for _, f := range []string{"json", "text", "cloudevents-json", "other", "x-" + hex.EncodeToString(g.String(2))} {
-		if r.Chance(1, 3) {
-			es = append(es, TableEntry{f, hex.EncodeToString(g.String(6))})
-		}
-	}
-	return false, es
-}
-
 func genProc(em *emitter, r *hc.Rand, n, depth int, unencPermille int) {
 	g := &jgen.Gen{R: r, Stats: em.stats}
 	for i := 0; i < n; i++ {
@@ -403,9 +308,9 @@ func genProc(em *emitter, r *hc.Rand, n, depth int, unencPermille int) {
 			c.Pred = 1 + r.Intn(3)
 		}
 		c.Type = hex.EncodeToString(g.String(5))
-		c.Time = genTime(r)
-		c.Payload = g.Value(depth, unencPermille)
-		c.NilTab, c.Pre = genPre(r, g)
+		c.Time = jgen.GenTime(r)
+		c.Payload = g.Payload(depth, unencPermille)
+		c.NilTab, c.Pre = jgen.GenPre(r, g)
 		em.emit(c)
 	}
 }
@@ -422,14 +327,14 @@ func genGrid(em *emitter) {
 				continue
 			}
 			for _, p := range payloads {
-				for _, t := range []TimeSpec{times[2], badTimes[0]} {
+				for _, t := range []jgen.TimeSpec{jgen.Times[2], jgen.BadTimes[0]} {
 					for tab := 0; tab < 3; tab++ {
 						c := Case{Gen: "grid", Kind: "proc", Node: node, Pred: pred, Type: hex.EncodeToString([]byte("t&1")), Time: t, Payload: p}
 						switch tab {
 						case 0:
 							c.NilTab = true
 						case 2:
-							c.Pre = []TableEntry{{"json", hex.EncodeToString([]byte("stale\n"))}, {"text", hex.EncodeToString([]byte("T"))}}
+							c.Pre = []jgen.TableEntry{{"json", hex.EncodeToString([]byte("stale\n"))}, {"text", hex.EncodeToString([]byte("T"))}}
 						}
 						em.emit(c)
 					}
@@ -451,7 +356,7 @@ func genStrings(em *emitter) {
 		}
 	}
 	for i, s := range ss {
-		c := Case{Gen: "strings", Kind: "proc", Node: []string{"formatter", "jff"}[i%2], Time: times[1], Payload: &jgen.Recipe{K: "str", V: hex.EncodeToString(s)}}
+		c := Case{Gen: "strings", Kind: "proc", Node: []string{"formatter", "jff"}[i%2], Time: jgen.Times[1], Payload: &jgen.Recipe{K: "str", V: hex.EncodeToString(s)}}
 		if i%3 == 0 {
 			c.Type = hex.EncodeToString(s)
 		}
@@ -463,7 +368,7 @@ func genTable(em *emitter, r *hc.Rand, n int) {
 	g := &jgen.Gen{R: r, Stats: map[string]int{}}
 	for i := 0; i < n; i++ {
 		c := Case{Gen: "table", Kind: "table"}
-		c.NilTab, c.Pre = genPre(r, g)
+		c.NilTab, c.Pre = jgen.GenPre(r, g)
 		ng := 1 + r.Intn(4)
 		names := []string{"json", "text", "cloudevents-json", "k" + hex.EncodeToString(g.String(1))}
 		for j, m := 0, r.Intn(14); j < m; j++ {
@@ -501,7 +406,7 @@ func stress(rounds, ng, per int, r *hc.Rand) []string {
 			go func(g int) {
 				defer wg.Done()
 				rr := seeds[g]
-				mine := map[string]string{}      // my current value per name
+				mine := map[string]string{}         // my current value per name
 				old := map[string]map[string]bool{} // my overwritten values per name
 				for i := 0; i < per; i++ {
 					name := names[rr.Intn(len(names))]
